@@ -34,6 +34,7 @@ type Case struct {
 	Same bool   `json:"same"` // b is the same object as a
 	Op   string `json:"op"`   // intersection | union | difference
 	Muts []Mut  `json:"muts"`
+	Hi   int    `json:"hi,omitempty"` // values are drawn from 0..Hi (0 = the default 0..9)
 }
 
 type algebra[S any] interface {
@@ -125,7 +126,11 @@ func run[S algebra[S]](c Case, mk func() S, ordered bool) (pbt.Info, error) {
 		if s.Size() != len(want) {
 			return fmt.Errorf("%s %s: %s.Size()=%d, want %d", c.Kind, when, name, s.Size(), len(want))
 		}
-		for x := -1; x <= 11; x++ {
+		top := 11
+		if c.Hi > 0 {
+			top = c.Hi + 2
+		}
+		for x := -1; x <= top; x++ {
 			if s.Contains(x) != m[x] {
 				return fmt.Errorf("%s %s: %s.Contains(%d)=%v, want %v", c.Kind, when, name, x, s.Contains(x), m[x])
 			}
@@ -293,14 +298,22 @@ func gen(kind string) func(t *rapid.T) Case {
 		if kind == "treeset" {
 			c.Cmp = dom.TotalCmps[rapid.IntRange(0, len(dom.TotalCmps)-1).Draw(t, "cmp")]
 		}
-		vals := func(label string, maxN int) []int {
-			return rapid.SliceOfN(rapid.IntRange(0, 9), 0, maxN).Draw(t, label)
+		hi, maxA, maxB := 9, 8, 8
+		if rapid.IntRange(0, 9).Draw(t, "large") == 0 {
+			// operands of dozens of elements, often of very different sizes
+			hi = 90
+			c.Hi = hi
+			maxA = []int{80, 80, 6}[rapid.IntRange(0, 2).Draw(t, "sizeA")]
+			maxB = []int{80, 6, 80}[rapid.IntRange(0, 2).Draw(t, "sizeB")]
 		}
-		c.A, c.ARem = vals("a", 8), vals("arem", 3)
+		vals := func(label string, maxN int) []int {
+			return rapid.SliceOfN(rapid.IntRange(0, hi), 0, maxN).Draw(t, label)
+		}
+		c.A, c.ARem = vals("a", maxA), vals("arem", 3)
 		if rapid.IntRange(0, 7).Draw(t, "same") == 0 {
 			c.Same = true
 		} else {
-			c.B, c.BRem = vals("b", 8), vals("brem", 3)
+			c.B, c.BRem = vals("b", maxB), vals("brem", 3)
 		}
 		c.Op = []string{"intersection", "union", "difference"}[rapid.IntRange(0, 2).Draw(t, "op")]
 		n := rapid.IntRange(0, 6).Draw(t, "nmut")
@@ -308,7 +321,7 @@ func gen(kind string) func(t *rapid.T) Case {
 			c.Muts = append(c.Muts, Mut{
 				T: []string{"a", "b", "r"}[rapid.IntRange(0, 2).Draw(t, "target")],
 				O: []string{"add", "add", "rem", "rem", "clear"}[rapid.IntRange(0, 4).Draw(t, "mo")],
-				X: rapid.IntRange(0, 10).Draw(t, "x"),
+				X: rapid.IntRange(0, hi+1).Draw(t, "x"),
 			})
 		}
 		return c
